@@ -43,6 +43,8 @@ def run(ck, rng, tier):
         ny = rng.randint(1, 4)
         cond = rng.choice((1.0, 10.0, 100.0, 1e3, 1e4))
         noise = rng.choice((0.0, 0.0, 0.1, 2.0))
+        if c in (5, 6):     # object counts one above a multiple of 32 (33, 65), noisy data
+            n, noise, cond = (33, 65)[c - 5], 0.5, 10.0
         far = c in (1, 2) or (thorough and c % 20 == 7)
         if far:  # noisy responses far from the origin (offset 3e5..3e6 spreads): TSS must be taken about the mean
             noise, cond = 0.3, min(cond, 10.0)
@@ -56,6 +58,10 @@ def run(ck, rng, tier):
             ux, uy = rng.choice((1e6, 1e5)), rng.choice((1e-6, 1e-7))
             X, Y, Xnew = X * ux, Y * uy, Xnew * ux
             ck.count("predictors in units of %g, responses in units of %g" % (ux, uy))
+        if c == 4:
+            # responses beyond the range of single precision (units of 1e40): ordinary doubles
+            Y = Y * 1e40
+            ck.count("responses in units of 1e40")
         kind = rng.choice(("plain", "yaffine", "xmix"))
         lines.append("mlr %s %s %s" % (vf.fmt_mat(X.tolist(), m), vf.fmt_mat(Y.tolist(), ny), vf.fmt_mat(Xnew.tolist(), m)))
         meta.append(("base", X, Y, Xnew, cond, noise, kind))
